@@ -19,8 +19,8 @@ broken translator obligation):
                `yield e` (generators), `self.<EFFECT>(ints...)` as a statement (see "effects").
   expressions: int constants, names, tuples, `t[const]` on tuple-typed names, `s.start` / `s.stop` on slice-typed
                names, `e.attr` on record-typed names (`rec:` types), + - * // % ** unary -, & | ^ ~ << >>, comparisons
-               (also chained: `a <= b <= c`), `a if c else b`, and / or / not in conditions, min / max of two
-               arguments, abs, int(e), len(list), `sum(1 for i in range(N) if c)`, `int(sqrt(e))` (see below),
+               (also chained: `a <= b <= c`), `a if c else b`, and / or / not in conditions, min / max of ints
+               (several arguments or one literal tuple), abs, int(e), len(list), `sum(1 for i in range(N) if c)`, `int(sqrt(e))` (see below),
                `Enum.member` of an IntEnum class of the same file or imported by `from <module of the repo> import`
                (the member's integer literal), calls of functions translated earlier in FUNCS (tuple results via
                `let (a, b) := ...`), `f(d - s for s, d in zip(a, b))` for 3-tuples `a`, `b` (component-wise tuple).
@@ -47,6 +47,43 @@ broken translator obligation):
   effects    : return type `calls:<n>` / `calls:<t1>,<t2>,...`: a method whose observable behaviour is the sequence of
                its calls `self.<m>(a1, ..., an)` for `<m>` in EFFECTS (n integer arguments / arguments of the given
                types, no keywords): the result is the list of argument tuples in call order.
+  static     : `isinstance(x, str)` / `isinstance(x, Iterable)` for a parameter `x` declared "int" (and never
+               assigned in live code) is False by the declared type: an `if` with such a test (also under not / and /
+               or) keeps only its live branch - the generated definition covers the calls with an int argument.
+               `x in Enum` / `x not in Enum` for an IntEnum class is membership of the value (Python >= 3.12).
+               `D[k]` for the dicts in KEY_DICTS / PAIR_DICTS (tables regenerated by other translator modules) is a
+               raising expression (KeyError).  In a `calls:` function `return self.<EFFECT>(...)[.attr]` records the
+               call; the reply of the machine (the returned value) is not part of the result.
+  struct     : `struct.pack(fmt, v...)`, `struct.unpack_from(fmt, buf[, off])`, `struct.unpack(fmt, buf)` with a LITERAL
+               format of explicit byte order (`<`, `>`, `!`) and the items `B H I x` (with counts) on byte lists:
+               raising expressions (`struct.error`; exception name "struct.error") - `pyStructPack` checks every
+               value's range and the number of values, the unpack functions the buffer length; the unpacked values
+               must be assigned to a tuple of as many targets (names / attributes).
+               Module-level `NAME = <int literal>` constants of the file (assigned once) are their values.
+  objects    : the parameter declared "obj:..." may have any name when the function is not a method
+               (`_unpack_sdp_into_packet(packet, ...)`); attribute type suffixes: `:b` bool, `:y` bytes, `:o` int or None
+               (tested with `is None` / `is not None` like an optional parameter; assigning a struct value stores
+               `some v`).  Methods and properties are looked up through the single-inheritance chain of classes of
+               the file (`SCPPacket.bytestring` is `SDPPacket.bytestring` with `self.packed_data` = SCPPacket's).
+               "local:<name>=obj:..." declares an object the function creates itself (`<name> = cls()` / `Class()`):
+               the attribute values the constructor leaves are parameters of the generated definition (the statement
+               itself is dropped), `return <name>` returns the attributes.  `f(<obj>, args...)` as a statement, for a
+               procedure `f` translated earlier with an object parameter of a subset of the attributes, rebinds them.
+  variables  : "var:<name>=optslice" declares a local variable that holds `None` or `slice(a, b)` of ints
+               (`Option (Int × Int)`): `x = None`, `x = slice(a, b)`, `x is None` / `x is not None` as an `if` test,
+               `x.start` / `x.stop` / `x` itself where it is known to be a slice.  `yield Rec(...)` for the records in
+               RECORD_CALLS keeps the listed arguments (`ReserveResourceConstraint(resource, reservation, chip)`: the
+               reservation; the other two are opaque objects passed through).
+  results    : `opt:<t>`: the function returns `None` or a value (`Option`); `raw:<Lean type>` spells a result type
+               out.  `{r for r in Enum if c}` over an IntEnum class is the LIST of the member values satisfying `c`
+               in definition order (a canonical representation of the set); `Rec(a, b, c)` for the records in
+               VALUE_RECORDS (`RoutingTableEntry(routes, key, mask)`) is the tuple of its arguments; `module.NAME`
+               string constants (assigned once) may be `struct` formats.
+  events     : return type `ev:<t>`: calls of the methods in EVENT_CALLS (`warnings.warn`, `self._parent._perform_read`,
+               `self._parent._perform_write`) are recorded, in order, in a list of `PyEvent` (name, integer arguments,
+               bytes argument; the arguments of `warn` - a message - are not modelled) that is the LAST component of
+               the result.  `v = <event call>` (outside loops) additionally binds `v` to a new parameter `v_in` of the
+               generated definition: what the environment answers is an input.
   bytes      : parameter type "bytes": a byte string as the list of its byte values (`List Int`); `len(b)`,
                `b[i:j]` (= `pySlice b i j`, Python's clamping slice; also for other list-typed parameters).
   methods    : a FUNCS name `Class.method` selects a method of a class.
@@ -108,6 +145,8 @@ from harness.gen_tables import HEADER
 # param types: "int", "tup2", "tup3", "slice", "optint", "oslice", "list:int", "list:tup2", "list:rec:<attr>,<attr>",
 #              "obj:<attr>,<attr>"
 # return types: "int", "bool", "tup2", "tup3", "optnn", "none", "exc:<t>", "gen:<t>", "calls:<n>"
+SDP_OBJ = "obj:reply_expected:b,tag,dest_port,dest_cpu,src_port,src_cpu,dest_x,dest_y,src_x,src_y,data:y"
+SCP_OBJ = SDP_OBJ + ",cmd_rc,seq,arg1:o,arg2:o,arg3:o"
 FUNCS = [
     ("rig/geometry.py", "to_xyz", ["tup2"], "tup3"),
     ("rig/geometry.py", "minimise_xyz", ["tup3"], "tup3"),
@@ -159,6 +198,38 @@ FUNCS = [
     # `self.scp_data_length` is a caching property (its first read may query the machine); its value is an input here
     ("rig/machine_control/machine_controller.py", "MachineController._send_ffd",
      ["obj:scp_data_length", "int", "bytes", "int"], "exc:calls:int,int,int,int,int,int,int,bytes"),
+    # ---- third round: the mechanisms the properties are anchored in --------------------------------------
+    ("rig/machine_control/machine_controller.py", "MachineController.write_across_link",
+     ["obj:scp_data_length", "int", "bytes", "int", "int", "int"],
+     "exc:calls:int,int,int,int,int,int,int,bytes,int"),
+    ("rig/machine_control/machine_controller.py", "MachineController.fill",
+     ["obj:", "int", "int", "int", "int", "int", "int"], "exc:ev:none"),
+    ("rig/machine_control/scp_connection.py", "SCPConnection.write.packets",
+     ["int", "bytes", "buffer_size=int", "x=int", "y=int", "p=int"], "exc:gen:int,int,int,int,int,int,int,bytes"),
+    ("rig/machine_control/scp_connection.py", "SCPConnection.read.packets",
+     ["int", "ignored", "buffer_size=int", "x=int", "y=int", "p=int", "address=int"],
+     "exc:gen:int,int,int,int,int,int,int"),
+    ("rig/machine_control/boot.py", "boot_packet", ["ignored", "int", "int", "int", "int", "bytes"], "exc:ev:none"),
+    ("rig/machine_control/packets.py", "SDPPacket.packed_data", [SDP_OBJ], "bytes"),
+    ("rig/machine_control/packets.py", "SDPPacket.bytestring", [SDP_OBJ], "exc:bytes"),
+    ("rig/machine_control/packets.py", "SCPPacket.packed_data", [SCP_OBJ], "exc:bytes"),
+    ("rig/machine_control/packets.py", "SCPPacket.bytestring", [SCP_OBJ], "exc:bytes"),
+    ("rig/machine_control/packets.py", "_unpack_sdp_into_packet", [SDP_OBJ, "bytes"], "exc:none"),
+    ("rig/machine_control/packets.py", "SDPPacket.from_bytestring", ["local:packet=" + SDP_OBJ, "bytes"], "exc:none"),
+    ("rig/machine_control/packets.py", "SCPPacket.from_bytestring", ["local:packet=" + SCP_OBJ, "bytes", "int"],
+     "exc:none"),
+    ("rig/place_and_route/utils.py", "_get_minimal_core_reservations",
+     ["ignored", "list:int", "ignored", "var:reservation=optslice"], "gen:tup2"),
+    ("rig/machine_control/machine_controller.py", "unpack_routing_table_entry", ["bytes"],
+     "exc:opt:raw:(List Int × Int × Int) × Int × Int"),
+    ("rig/machine_control/machine_controller.py", "MachineController.send_signal", ["obj:", "int", "int"],
+     "exc:calls:7"),
+    ("rig/machine_control/machine_controller.py", "MachineController.count_cores_in_state", ["obj:", "int", "int"],
+     "exc:calls:7"),
+    ("rig/machine_control/machine_controller.py", "SlicedMemoryIO.read",
+     ["obj:_start_address,_end_address,_offset", "int"], "ev:bytes"),
+    ("rig/machine_control/machine_controller.py", "SlicedMemoryIO.write",
+     ["obj:_start_address,_end_address,_offset", "bytes"], "ev:int"),
     ("rig/machine_control/regions.py", "RegionCoreTree.__init__",
      ["obj:base_x,base_y,scale,shift,level;skip:locally_selected,subregions", "int", "int", "int"], "none"),
 ]
@@ -175,6 +246,23 @@ NAT_KEYED = ("_direction_link_lookup",)
 EFFECTS = ("_send_scp",)
 # guard decorators: the generated definition is the behaviour when the guard passes
 GUARDS = ("_if_not_closed",)
+# decorators `@X.<name>()` that only supply default values of arguments (the generated definition takes every
+# argument explicitly)
+TRANSPARENT_DECORATORS = ("use_contextual_arguments",)
+# module-level dicts keyed by a pair of small ints, regenerated (flattened, row-major) by another translator module:
+# name -> (Lean list of Nat, rows, columns); `D[(a, b)]` raises KeyError outside
+PAIR_DICTS = {"address_length_dtype": ("Rig.Gen.Scp.dtypeTable", 4, 4)}
+# calls recorded as events in functions declared `ev:`: method name -> (argument kinds or None = arguments not
+# modelled, type of the result or None); the receiver is `self`, an attribute chain of `self` or a module
+EVENT_CALLS = {"write": (("int", "bytes", "int", "int", "int"), None), "_send_scp": (("int",) * 7, None),
+               "send": (("bytes",), None), "warn": (None, None), "_perform_read": (("int", "int"), "bytes"), "_perform_write": (("int", "bytes"), None)}
+# module-level dicts from IntEnum members to IntEnum members, regenerated by another translator module as
+# association lists `List (Nat × Nat)`: `D[k]` raises KeyError when absent
+KEY_DICTS = {"signal_types": "Rig.Gen.LoadSig.signalTypes", "diagnostic_signal_types": "Rig.Gen.LoadSig.diagSignalTypes"}
+# records (named tuples) that may be built as VALUES: name -> number of positional arguments (the tuple of them)
+VALUE_RECORDS = {"RoutingTableEntry": 3}
+# named tuples whose construction may be yielded: the positional arguments kept, keyword arguments ignored
+RECORD_CALLS = {"scpcall": ("callback",), "ReserveResourceConstraint": ((), (1,))}
 # classes whose construction may be returned: the integer arguments kept (by position)
 CONSTRUCTORS = {"SlicedMemoryIO": (1, 2)}
 
@@ -213,6 +301,78 @@ def pySlice {α : Type} (l : List α) (a b : Int) : List α :=
   let b' : Int := if b < 0 then max (b + n) 0 else min b n
   (l.drop a'.toNat).take (b' - a').toNat
 
+/-- `D[(a, b)]` for a dict keyed by the pairs `(i, j)`, `i < rows`, `j < cols`, given as the row-major list of
+its values; `KeyError` outside -/
+def pyPairGet (t : List Nat) (rows cols : Nat) (a b : Int) : Except String Int :=
+  if 0 ≤ a ∧ a < (rows : Int) ∧ 0 ≤ b ∧ b < (cols : Int) then
+    match t[cols * a.toNat + b.toNat]? with
+    | some v => Except.ok (v : Int)
+    | none => Except.error "KeyError"
+  else Except.error "KeyError"
+
+/-- a call of a method of the environment, recorded by functions declared `ev:` (name, integer arguments, bytes) -/
+structure PyEvent where
+  name : String
+  ints : List Int
+  bytes : List Int
+  deriving DecidableEq, Repr
+
+/-- `D[k]` for a dict given as an association list of naturals; `KeyError` when absent (or negative) -/
+def pyKeyGet (t : List (Nat × Nat)) (k : Int) : Except String Int :=
+  if k < 0 then Except.error "KeyError"
+  else match t.lookup k.toNat with
+    | some v => Except.ok (v : Int)
+    | none => Except.error "KeyError"
+
+/-- the format characters of the `struct` subset: unsigned byte / 16 bit / 32 bit, pad byte -/
+inductive PyFmt where
+  | B | H | I | x
+  deriving DecidableEq, Repr
+
+def PyFmt.size : PyFmt → Nat
+  | .B => 1 | .H => 2 | .I => 4 | .x => 1
+
+/-- the `k` little-endian bytes of `v` -/
+def pyLeBytes : Nat → Int → List Int
+  | 0, _ => []
+  | k + 1, v => (v % 256) :: pyLeBytes k (v / 256)
+
+/-- the value of little-endian bytes -/
+def pyLeValue : List Int → Int
+  | [] => 0
+  | b :: r => b + 256 * pyLeValue r
+
+/-- `struct.pack(fmt, *vals)` for a format of `B H I x` items with explicit byte order (`big` = `>` / `!`):
+`struct.error` for a value outside the item's range or a wrong number of values -/
+def pyStructPack (big : Bool) : List PyFmt → List Int → Except String (List Int)
+  | [], [] => Except.ok []
+  | PyFmt.x :: fs, vs => (pyStructPack big fs vs).map (fun r => (0 : Int) :: r)
+  | f :: fs, v :: vs =>
+    if 0 ≤ v ∧ v.toNat < 256 ^ f.size then       -- (a test on naturals: the kernel can evaluate it on casts)
+      (pyStructPack big fs vs).map (fun r => (if big then (pyLeBytes f.size v).reverse else pyLeBytes f.size v) ++ r)
+    else Except.error "struct.error"
+  | _, _ => Except.error "struct.error"
+
+def pyStructSize (fs : List PyFmt) : Nat := (fs.map PyFmt.size).sum
+
+/-- the values of a buffer that is long enough -/
+def pyStructValues (big : Bool) : List PyFmt → List Int → List Int
+  | [], _ => []
+  | PyFmt.x :: fs, b => pyStructValues big fs (b.drop 1)
+  | f :: fs, b =>
+    pyLeValue (if big then (b.take f.size).reverse else b.take f.size) :: pyStructValues big fs (b.drop f.size)
+
+/-- `struct.unpack_from(fmt, buf, off)`: `struct.error` unless `size` bytes are available at the offset (a negative
+offset counts from the end) -/
+def pyStructUnpackFrom (big : Bool) (fs : List PyFmt) (buf : List Int) (off : Int) : Except String (List Int) :=
+  let o : Int := if off < 0 then off + (buf.length : Int) else off
+  if o < 0 ∨ (buf.length : Int) - o < (pyStructSize fs : Int) then Except.error "struct.error"
+  else Except.ok (pyStructValues big fs (buf.drop o.toNat))
+
+/-- `struct.unpack(fmt, buf)`: the buffer must have exactly the size of the format -/
+def pyStructUnpack (big : Bool) (fs : List PyFmt) (buf : List Int) : Except String (List Int) :=
+  if buf.length = pyStructSize fs then Except.ok (pyStructValues big fs buf) else Except.error "struct.error"
+
 /-- Python `int(math.sqrt(n))` (integer square root, exact below 2^52; `ValueError: math domain error` for n < 0) -/
 def pyIsqrt (n : Int) : Except String Int :=
   if n < 0 then Except.error "ValueError" else Except.ok ((Nat.sqrt n.toNat : Nat) : Int)
@@ -241,11 +401,17 @@ def lean_ty(t):
     if t.startswith("exc:"):
         return "Except String " + paren(lean_ty(t[4:]))
     if t.startswith("gen:"):
+        if "," in t:
+            return "List (" + prod([BASE_TY[x] for x in t[4:].split(",")]) + ")"
         return "List " + paren(lean_ty(t[4:]))
     if t.startswith("calls:"):
         return "List (" + prod(calls_types(t)) + ")"
     if t.startswith("list:rec:"):
         return "List (" + " × ".join(["Int"] * len(t[9:].split(","))) + ")"
+    if t.startswith("opt:"):
+        return "Option " + paren(lean_ty(t[4:]))
+    if t.startswith("raw:"):
+        return t[4:]
     return BASE_TY[t]
 
 
@@ -345,6 +511,12 @@ class Tr(object):
         self.uses_fuel = False
         self.fn = None
         self.nloops = 0
+        self.optslices = set()        # local variables declared `optslice`
+        self.local_obj = False        # the object is created by the function itself (`x = cls()`)
+        self.objname = "self"         # name of the parameter declared "obj:..."
+        self.mro = [cls]              # the class and its base classes (same file), for properties of `self`
+        self.consts = {}              # module-level `NAME = <int literal>` of the file
+        self.oracles = []             # results of event calls: extra parameters (name, Lean type)
         self.localfns = {}            # nested `def f(x): return e` -> (parameter names, e)
         self.tmp_ty = {}              # hoisted temporaries -> Lean type
         self.rec_elems = {}           # list-of-records parameter -> attribute names
@@ -362,20 +534,28 @@ class Tr(object):
 
     def self_attr(self, n):
         """`self.x`: ("state", lean name) / ("prop", lean call, type) / None"""
-        if not (isinstance(n, ast.Attribute) and isinstance(n.value, ast.Name) and n.value.id == "self"
-                and "self" in self.types):
+        if not (isinstance(n, ast.Attribute) and isinstance(n.value, ast.Name) and n.value.id == self.objname
+                and self.objname in self.types):
             return None
-        if self.types["self"] == "obj":
+        if self.types[self.objname] == "obj":
             if n.attr in self.attrs:
-                return ("state", "self_" + n.attr)
-            qual = "%s.%s" % (self.cls, n.attr)
-            if qual in self.done and self.done[qual][1][:1] == [self.obj_spec] \
-                    and len(self.done[qual][1]) == 1 and not self.done[qual][2] and self.done[qual][0] in ("int", "bool"):
-                # a property translated earlier that reads the same attributes and assigns none:
-                # its value is the first component of the state-passing result
-                return ("prop", "(%s %s).1" % (lean_name(qual), " ".join("self_" + a for a in self.attrs)),
-                        self.done[qual][0])
-            raise NotImplementedError("attribute self.%s is not declared as state" % n.attr)
+                return ("state", self.objname + "_" + n.attr)
+            # a property translated earlier (in this class or a base class) that reads the same attributes and
+            # assigns none: its value is the first component of the state-passing result
+            for c in self.mro:
+                qual = "%s.%s" % (c, n.attr)
+                d = self.done.get(qual)
+                if d is None:
+                    continue
+                rt = d[0][4:] if d[0].startswith("exc:") else d[0]
+                if d[1][:1] == [self.obj_spec] and len(d[1]) == 1 and not d[2] and rt in ("int", "bool", "bytes"):
+                    call = "(%s %s)" % (lean_name(qual), " ".join(self.objname + "_" + a for a in self.attrs))
+                    if d[0].startswith("exc:"):
+                        t = self.raising(call)
+                        self.tmp_ty[t + ".1"] = BASE_TY[rt]
+                        return ("prop", t + ".1", rt)
+                    return ("prop", call + ".1", rt)
+            raise NotImplementedError("attribute %s.%s is not declared as state" % (self.objname, n.attr))
         if self.types["self"] == "int" and self.cls is not None:
             f, t = self.callee(self.cls + "." + n.attr)
             return ("prop", "(%s self)" % f, t)
@@ -384,13 +564,13 @@ class Tr(object):
     def self_method_call(self, n):
         """`self.m()` for a translated method of the same object reading the same attributes"""
         if not (isinstance(n, ast.Call) and isinstance(n.func, ast.Attribute) and isinstance(n.func.value, ast.Name)
-                and n.func.value.id == "self" and self.types.get("self") == "obj" and not n.args and not n.keywords):
+                and n.func.value.id == self.objname and self.types.get(self.objname) == "obj" and not n.args and not n.keywords):
             return None
         qual = "%s.%s" % (self.cls, n.func.attr)
         d = self.done.get(qual)
         if d is None or d[1] != [self.obj_spec] or d[2] or d[0] not in ("int", "bool"):
             return None
-        return "(%s %s).1" % (lean_name(qual), " ".join("self_" + a for a in self.attrs)), d[0]
+        return "(%s %s).1" % (lean_name(qual), " ".join(self.objname + "_" + a for a in self.attrs)), d[0]
 
     def tmp(self):
         self.ntmp += 1
@@ -400,20 +580,65 @@ class Tr(object):
         return self.ret.startswith("exc:")
 
     def base(self):
-        return self.ret[4:] if self.is_exc() else self.ret
+        b = self.ret[4:] if self.is_exc() else self.ret
+        return b[3:] if b.startswith("ev:") else b
+
+    def has_events(self):
+        return (self.ret[4:] if self.is_exc() else self.ret).startswith("ev:")
+
+    def event_call(self, c):
+        """a call recorded as an event (EVENT_CALLS): -> (Lean `PyEvent` expression, result type or None) or None"""
+        if not (isinstance(c, ast.Call) and isinstance(c.func, ast.Attribute) and c.func.attr in EVENT_CALLS):
+            return None
+        # the receiver must be `self`, an attribute chain of `self` or a module name (never a translated value)
+        r = c.func.value
+        while isinstance(r, ast.Attribute):
+            r = r.value
+        if not (isinstance(r, ast.Name) and (r.id == "self" or r.id not in self.lty)):
+            return None
+        kinds, result = EVENT_CALLS[c.func.attr]
+        if not self.has_events():
+            if c.func.attr in EFFECTS:
+                return None                   # recorded as a `calls:` tuple instead
+            raise NotImplementedError("event call %s in a function not declared ev:" % c.func.attr)
+        if kinds is None:
+            return "(PyEvent.mk \"%s\" [] [])" % c.func.attr, result          # arguments not modelled (messages)
+        if c.keywords or len(c.args) != len(kinds):
+            raise NotImplementedError("event call %s with %d arguments" % (c.func.attr, len(c.args)))
+        ints = [self.e(a) for a, k in zip(c.args, kinds) if k == "int"]
+        bys = [self.e(a) for a, k in zip(c.args, kinds) if k == "bytes"]
+        if len(bys) > 1 or any(self.tyof(a) != ("Int" if k == "int" else "List Int") for a, k in zip(c.args, kinds)):
+            raise NotImplementedError("event call %s: argument types" % c.func.attr)
+        return "(PyEvent.mk \"%s\" [%s] %s)" % (c.func.attr, ", ".join(ints), bys[0] if bys else "[]"), result
 
     def is_stream(self):
         """a generator / a function observed through its effect calls: the result is the list `out_`"""
         return self.base().startswith(("gen:", "calls:"))
 
     def enum_member(self, n):
-        """`Enum.member` -> int value or None"""
+        """`Enum.member` / `module.Enum.member` -> int value or None"""
+        if isinstance(n, ast.Attribute) and isinstance(n.value, ast.Attribute) and isinstance(n.value.value, ast.Name) \
+                and n.value.value.id in self.module_enums and n.value.value.id not in self.lty:
+            en = self.module_enums[n.value.value.id]
+            if n.value.attr in en:
+                if n.attr not in en[n.value.attr]:
+                    raise NotImplementedError("%s has no member %s" % (n.value.attr, n.attr))
+                return en[n.value.attr][n.attr]
         if isinstance(n, ast.Attribute) and isinstance(n.value, ast.Name) and n.value.id in self.enums \
                 and n.value.id not in self.lty:
             members = self.enums[n.value.id]
             if n.attr not in members:
                 raise NotImplementedError("%s has no member %s" % (n.value.id, n.attr))
             return members[n.attr]
+        return None
+
+    def enum_values(self, n):
+        """an IntEnum class `Enum` / `module.Enum` -> its member values, or None"""
+        if isinstance(n, ast.Name) and n.id in self.enums and n.id not in self.lty:
+            return list(self.enums[n.id].values())
+        if isinstance(n, ast.Attribute) and isinstance(n.value, ast.Name) and n.value.id in self.module_enums \
+                and n.value.id not in self.lty and n.attr in self.module_enums[n.value.id]:
+            return list(self.module_enums[n.value.id][n.attr].values())
         return None
 
     def none_test(self, n):
@@ -430,20 +655,45 @@ class Tr(object):
         """an optional-int expression: (Lean expr : Option Int, key, narrowed name) or None"""
         if isinstance(n, ast.Name) and self.types.get(n.id) == "optint":
             return ident(n.id), ast.dump(n), ident(n.id) + "_v"
+        if isinstance(n, ast.Name) and n.id in self.optslices and self.lty.get(ident(n.id)) == "Option (Int × Int)":
+            return ident(n.id), ast.dump(n), ident(n.id) + "_v"
         if isinstance(n, ast.Attribute) and isinstance(n.value, ast.Name) and self.types.get(n.value.id) == "oslice" \
                 and n.attr in ("start", "stop", "step"):
             i = ("start", "stop", "step").index(n.attr)
             return proj(ident(n.value.id), i, 3), ast.dump(n), "%s_%s" % (ident(n.value.id), n.attr)
+        if isinstance(n, ast.Attribute) and isinstance(n.value, ast.Name) and n.value.id == self.objname \
+                and self.types.get(self.objname) == "obj" and n.attr in self.attrs \
+                and self.lty.get(self.objname + "_" + n.attr) == "Option Int":
+            nm = self.objname + "_" + n.attr
+            return nm, ast.dump(n), nm + "_v"
         return None
 
     # ---- types ----------------------------------------------------------------
     def tyof(self, n):
         """Lean type of the value of an expression (only as precise as the loop-state annotations need)"""
         if isinstance(n, ast.Name):
+            if n.id in self.optslices and ast.dump(n) in self.narrow:
+                return "Int × Int"
             return self.lty.get(ident(n.id), "Int")
         if isinstance(n, ast.Constant) and isinstance(n.value, bool):
             return "Bool"
-        sa_ = self.self_attr(n) if isinstance(n, ast.Attribute) and self.types.get("self") == "obj" else None
+        if isinstance(n, ast.Constant) and isinstance(n.value, bytes):
+            return "List Int"
+        if isinstance(n, ast.SetComp):
+            return "List Int"
+        if isinstance(n, ast.Call) and self.record_value(n) is not None:
+            return prod([self.tyof(a) for a in self.record_value(n)])
+        if isinstance(n, ast.Call) and self.struct_call(n) is not None:
+            return "List Int"
+        if isinstance(n, ast.Attribute) and isinstance(n.value, ast.Name) and n.value.id == self.objname \
+                and self.types.get(self.objname) == "obj" and n.attr not in self.attrs:
+            for c in self.mro:
+                d = self.done.get("%s.%s" % (c, n.attr))
+                if d is not None:
+                    return lean_ty(d[0][4:] if d[0].startswith("exc:") else d[0])
+        if isinstance(n, ast.BinOp) and isinstance(n.op, (ast.Add, ast.Mult)) and self.tyof(n.left).startswith("List "):
+            return self.tyof(n.left)
+        sa_ = self.self_attr(n) if isinstance(n, ast.Attribute) and self.types.get(self.objname) == "obj" else None
         if sa_ is not None and sa_[0] == "state":
             return self.lty[sa_[1]]
         if isinstance(n, (ast.Tuple,)):
@@ -463,6 +713,8 @@ class Tr(object):
         if (isinstance(n, ast.Subscript) and isinstance(n.value, ast.Name) and isinstance(n.slice, ast.Slice)
                 and self.lty.get(ident(n.value.id), "").startswith("List ")):
             return self.lty[ident(n.value.id)]
+        if isinstance(n, ast.Subscript) and isinstance(n.slice, ast.Slice) and isinstance(n.value, ast.Attribute):
+            return self.tyof(n.value)
         if isinstance(n, ast.IfExp):
             return self.tyof(n.body)
         if isinstance(n, (ast.Compare, ast.BoolOp)) or (isinstance(n, ast.UnaryOp) and isinstance(n.op, ast.Not)):
@@ -491,7 +743,16 @@ class Tr(object):
         """does any of the AST nodes contain a construct translated as a raising expression?"""
         for x in nodes:
             for n in ast.walk(x):
-                if self.is_list_index(n):
+                if self.is_list_index(n) or self.pair_dict(n) is not None or self.key_dict(n) is not None:
+                    return True
+                if isinstance(n, ast.Call) and self.struct_call(n) is not None:
+                    return True
+                if isinstance(n, ast.Call) and isinstance(n.func, ast.Name) and n.func.id in self.done \
+                        and self.done[n.func.id][0].startswith("exc:") and n.func.id not in self.lty:
+                    return True
+                if isinstance(n, ast.Attribute) and isinstance(n.value, ast.Name) and n.value.id == self.objname \
+                        and self.types.get(self.objname) == "obj" and n.attr not in self.attrs \
+                        and any(self.done.get("%s.%s" % (c, n.attr), ("",))[0].startswith("exc:") for c in self.mro):
                     return True
                 if isinstance(n, ast.Call) and isinstance(n.func, ast.Name) and n.func.id == "sqrt":
                     return True
@@ -505,13 +766,139 @@ class Tr(object):
         return t[1:-1] if t.startswith("(") and t.endswith(")") else t
 
     # ---- expressions --------------------------------------------------------
+    def pair_dict(self, n):
+        """`D[(a, b)]` / `module.D[(a, b)]` for D in PAIR_DICTS -> (D, a, b) or None"""
+        if not (isinstance(n, ast.Subscript) and isinstance(n.slice, ast.Tuple) and len(n.slice.elts) == 2):
+            return None
+        v = n.value
+        name = v.id if isinstance(v, ast.Name) else v.attr if (
+            isinstance(v, ast.Attribute) and isinstance(v.value, ast.Name) and v.value.id in self.module_enums) else None
+        if name in PAIR_DICTS and name not in self.lty:
+            return name, n.slice.elts[0], n.slice.elts[1]
+        return None
+
+    def struct_call(self, n):
+        """`struct.pack(fmt, ...)` / `struct.unpack_from(fmt, buf[, off])` / `struct.unpack(fmt, buf)` with a literal
+        format -> (kind, big-endian?, items, other args) or None"""
+        if not (isinstance(n, ast.Call) and isinstance(n.func, ast.Attribute) and isinstance(n.func.value, ast.Name)
+                and n.func.value.id == "struct" and "struct" not in self.lty
+                and n.func.attr in ("pack", "unpack", "unpack_from") and n.args and not n.keywords):
+            return None
+        f = n.args[0]
+        if isinstance(f, ast.Attribute) and isinstance(f.value, ast.Name) and f.value.id not in self.lty \
+                and f.attr in self.module_strs.get(f.value.id, {}):
+            f = ast.Constant(value=self.module_strs[f.value.id][f.attr])     # `consts.NAME`: a string constant
+        if not (isinstance(f, ast.Constant) and isinstance(f.value, (str, bytes))):
+            raise NotImplementedError("struct format that is not a literal")
+        fmt = f.value.decode() if isinstance(f.value, bytes) else f.value
+        if fmt[:1] not in ("<", ">", "!"):
+            raise NotImplementedError("struct format without explicit byte order: " + fmt)
+        items, count = [], ""
+        for ch in fmt[1:]:
+            if ch.isdigit():
+                count += ch
+            elif ch in "BHIx":
+                items += [ch] * (int(count) if count else 1)
+                count = ""
+            elif ch == " ":
+                continue
+            else:
+                raise NotImplementedError("struct format character " + ch)
+        if count:
+            raise NotImplementedError("struct format " + fmt)
+        return n.func.attr, fmt[0] != "<", items, n.args[1:]
+
+    def struct_expr(self, n):
+        """a struct call as a raising expression of type `List Int` (the packed bytes / the unpacked values)"""
+        kind, big, items, args = self.struct_call(n)
+        its = "[" + ", ".join("PyFmt." + c for c in items) + "]"
+        b = "true" if big else "false"
+        if kind == "pack":
+            t = self.raising("(pyStructPack %s %s [%s])" % (b, its, ", ".join(self.e(a) for a in args)))
+        elif kind == "unpack":
+            if len(args) != 1:
+                raise NotImplementedError("struct.unpack arguments")
+            t = self.raising("(pyStructUnpack %s %s %s)" % (b, its, self.e(args[0])))
+        else:
+            if len(args) not in (1, 2):
+                raise NotImplementedError("struct.unpack_from arguments")
+            off = self.e(args[1]) if len(args) == 2 else "(0 : Int)"
+            t = self.raising("(pyStructUnpackFrom %s %s %s %s)" % (b, its, self.e(args[0]), off))
+        self.tmp_ty[t] = "List Int"
+        return t, len([c for c in items if c != "x"])
+
+    def key_dict(self, n):
+        """`D[k]` / `module.D[k]` for a Nat-keyed, Nat-valued generated table (KEY_DICTS) -> (Lean table, key AST)"""
+        if not isinstance(n, ast.Subscript) or isinstance(n.slice, (ast.Slice, ast.Tuple)):
+            return None
+        v = n.value
+        name = v.id if isinstance(v, ast.Name) else v.attr if (
+            isinstance(v, ast.Attribute) and isinstance(v.value, ast.Name) and v.value.id in self.module_enums) else None
+        if name in KEY_DICTS and name not in self.lty:
+            return KEY_DICTS[name], n.slice
+        return None
+
+    def record_value(self, n):
+        """`Rec(args...)` / `module.Rec(args...)` for a record in VALUE_RECORDS -> the kept positional arguments"""
+        if not (isinstance(n, ast.Call) and not n.keywords):
+            return None
+        f = n.func
+        name = f.id if isinstance(f, ast.Name) else f.attr if (
+            isinstance(f, ast.Attribute) and isinstance(f.value, ast.Name) and f.value.id not in self.lty) else None
+        if name in VALUE_RECORDS and name not in self.lty and len(n.args) == VALUE_RECORDS[name]:
+            return n.args
+        return None
+
     def e(self, n):
-        if (isinstance(n, ast.Subscript) and isinstance(n.value, ast.Name) and isinstance(n.slice, ast.Slice)
-                and self.lty.get(ident(n.value.id), "").startswith("List ")):
+        if isinstance(n, ast.SetComp) and len(n.generators) == 1 and len(n.generators[0].ifs) == 1 \
+                and isinstance(n.generators[0].target, ast.Name) and isinstance(n.elt, ast.Name) \
+                and n.elt.id == n.generators[0].target.id and self.enum_values(n.generators[0].iter) is not None:
+            # {r for r in Enum if c}: the set of member values satisfying c, as the list in definition order
+            var = ident(n.generators[0].target.id)
+            saved = dict(self.lty)
+            self.lty[var] = "Int"
+            c = self.p(n.generators[0].ifs[0])
+            self.lty = saved
+            return "(([%s] : List Int).filter (fun (%s : Int) => decide %s))" % (
+                ", ".join(str(v) for v in self.enum_values(n.generators[0].iter)), var, c)
+        rv = self.record_value(n)
+        if rv is not None:
+            return "(" + ", ".join(self.e(a) for a in rv) + ")"
+        if isinstance(n, ast.Subscript) and isinstance(n.slice, ast.Constant) and isinstance(n.slice.value, int) \
+                and isinstance(n.value, ast.Call) and self.struct_call(n.value) is not None \
+                and self.struct_call(n.value)[0] != "pack":
+            t, n_vals = self.struct_expr(n.value)
+            if not (0 <= n.slice.value < n_vals):
+                raise NotImplementedError("index %d of %d unpacked values" % (n.slice.value, n_vals))
+            return "(%s.getD %d 0)" % (t, n.slice.value)
+        if self.struct_call(n) is not None:
+            if self.struct_call(n)[0] != "pack":
+                raise NotImplementedError("struct.unpack outside a tuple assignment")
+            return self.struct_expr(n)[0]
+        kd = self.key_dict(n)
+        if kd is not None:
+            return self.raising("(pyKeyGet %s %s)" % (kd[0], self.e(kd[1])))
+        if isinstance(n, ast.Constant) and isinstance(n.value, bytes):
+            return "([%s] : List Int)" % ", ".join(str(b) for b in bytearray(n.value))
+        if isinstance(n, ast.BinOp) and isinstance(n.op, ast.Mult) and self.tyof(n.left).startswith("List ") \
+                and self.tyof(n.right) == "Int":
+            return "(List.replicate (%s).toNat %s).flatten" % (self.e(n.right), self.e(n.left))   # b * n (n <= 0: empty)
+        if isinstance(n, ast.BinOp) and isinstance(n.op, ast.Add) and self.tyof(n.left).startswith("List ") \
+                and self.tyof(n.right) == self.tyof(n.left):
+            return "(%s ++ %s)" % (self.e(n.left), self.e(n.right))
+        pd = self.pair_dict(n)
+        if pd is not None:
+            lean, rows, cols = PAIR_DICTS[pd[0]]
+            a, b = self.e(pd[1]), self.e(pd[2])
+            return self.raising("(pyPairGet %s %d %d %s %s)" % (lean, rows, cols, a, b))
+        if (isinstance(n, ast.Subscript) and isinstance(n.slice, ast.Slice) and (
+                (isinstance(n.value, ast.Name) and self.lty.get(ident(n.value.id), "").startswith("List "))
+                or (isinstance(n.value, ast.Attribute) and (self.self_attr(n.value) or ("", ""))[0] == "state"
+                    and self.tyof(n.value).startswith("List ")))):
             # l[a:b] (no step): Python's clamping slice
             if n.slice.step is not None:
                 raise NotImplementedError("slice with a step")
-            l = ident(n.value.id)
+            l = ident(n.value.id) if isinstance(n.value, ast.Name) else self.self_attr(n.value)[1]
             a = self.e(n.slice.lower) if n.slice.lower is not None else "(0 : Int)"
             b = self.e(n.slice.upper) if n.slice.upper is not None else "((%s).length : Int)" % l
             return "(pySlice %s %s %s)" % (l, a, b)
@@ -548,12 +935,18 @@ class Tr(object):
                 raise NotImplementedError("name " + n.id)
             if self.types.get(n.id) == "obj":
                 raise NotImplementedError("the object `%s` itself used as a value" % n.id)
+            if n.id in self.optslices and self.lty.get(ident(n.id)) == "Option (Int × Int)":
+                if ast.dump(n) in self.narrow:
+                    return self.narrow[ast.dump(n)]
+                raise NotImplementedError("optional slice `%s` used without an `is None` test" % n.id)
             if self.types.get(n.id) in ("optint", "oslice") and ident(n.id) in self.lty \
                     and self.lty[ident(n.id)].startswith("Option"):
                 if ast.dump(n) in self.narrow:
                     return self.narrow[ast.dump(n)]
                 raise NotImplementedError("optional `%s` used as a value without an `is None` test" % n.id)
             if ident(n.id) not in self.lty:
+                if n.id in self.consts and n.id not in self.assigned_anywhere_py:
+                    return "(%d : Int)" % self.consts[n.id]        # module-level integer constant
                 raise NotImplementedError("name `%s` is not (definitely) bound here" % n.id)
             return ident(n.id)
         if isinstance(n, ast.Tuple):
@@ -589,6 +982,11 @@ class Tr(object):
         v = self.enum_member(n)
         if v is not None:
             return "(%d : Int)" % v
+        o_ = self.opt_expr(n) if isinstance(n, ast.Attribute) else None
+        if o_ is not None and isinstance(n.value, ast.Name) and n.value.id == self.objname:
+            if o_[1] in self.narrow:
+                return self.narrow[o_[1]]
+            raise NotImplementedError("optional attribute used as a value without an `is None` test: " + n.attr)
         sa = self.self_attr(n)
         if sa is not None:
             if sa[0] == "state":
@@ -604,6 +1002,12 @@ class Tr(object):
             if o[1] in self.narrow:
                 return self.narrow[o[1]]
             raise NotImplementedError("optional used as a value without an `is None` test: " + ast.dump(n)[:60])
+        if isinstance(n, ast.Attribute) and isinstance(n.value, ast.Name) and n.value.id in self.optslices \
+                and n.attr in ("start", "stop"):
+            key = ast.dump(ast.Name(id=n.value.id, ctx=ast.Load()))
+            if key not in self.narrow:
+                raise NotImplementedError("optional slice `%s` used without an `is None` test" % n.value.id)
+            return self.narrow[key] + (".1" if n.attr == "start" else ".2")
         if isinstance(n, ast.Attribute) and isinstance(n.value, ast.Name) and self.types.get(n.value.id) == "slice":
             if n.attr == "start":
                 return n.value.id + ".1"
@@ -649,8 +1053,16 @@ class Tr(object):
             return self.ite(n.test, lambda: self.e(n.body), lambda: self.e(n.orelse))
         if isinstance(n, ast.Call) and isinstance(n.func, ast.Name):
             f = n.func.id
-            if f in ("min", "max") and len(n.args) == 2 and not n.keywords:
-                return "(%s %s %s)" % (f, self.e(n.args[0]), self.e(n.args[1]))
+            if f in ("min", "max") and not n.keywords:
+                # min(a, b, ...) / min((a, b, ...)) over ints (a literal tuple / list as the single argument)
+                xs = n.args
+                if len(xs) == 1 and isinstance(xs[0], (ast.Tuple, ast.List)):
+                    xs = xs[0].elts
+                if len(xs) >= 2 and all(self.tyof(x) == "Int" for x in xs):
+                    r = self.e(xs[0])
+                    for x in xs[1:]:
+                        r = "(%s %s %s)" % (f, r, self.e(x))
+                    return r
             # int(sqrt(e)): raising, hoisted in front of the statement
             if (f == "int" and len(n.args) == 1 and isinstance(n.args[0], ast.Call)
                     and isinstance(n.args[0].func, ast.Name) and n.args[0].func.id == "sqrt"
@@ -733,6 +1145,13 @@ class Tr(object):
 
     def p(self, n):
         """a Python expression used as a condition -> Lean Prop"""
+        if isinstance(n, ast.Compare) and len(n.ops) == 1 and isinstance(n.ops[0], (ast.In, ast.NotIn)):
+            # `x in Enum` / `x not in Enum` for an IntEnum class: value membership (Python >= 3.12)
+            vals = self.enum_values(n.comparators[0])
+            if vals is None:
+                raise NotImplementedError("`in` " + ast.dump(n.comparators[0])[:60])
+            m = "(([%s] : List Int).contains %s = true)" % (", ".join(str(v) for v in vals), self.e(n.left))
+            return m if isinstance(n.ops[0], ast.In) else "(¬ %s)" % m
         if isinstance(n, ast.Compare):
             if any(isinstance(o, (ast.Is, ast.IsNot)) for o in n.ops):
                 nt = self.none_test(n)
@@ -861,10 +1280,61 @@ class Tr(object):
             return [ident(t.id)]
         if isinstance(t, ast.Tuple) and all(isinstance(x, ast.Name) for x in t.elts):
             return [ident(x.id) for x in t.elts]
+        if isinstance(t, ast.Tuple):
+            return [nm for x in t.elts for nm in self.target_names(x)]
         sa = self.self_attr(t)
         if sa is not None and sa[0] == "state":
             return [sa[1]]
         raise NotImplementedError("assignment target " + ast.dump(t)[:80])
+
+    def proc_call(self, s):
+        """`f(obj, args...)` as a statement, `f` translated earlier with an object parameter whose attributes are
+        among ours (same types), returning nothing: -> (callee, Lean call) or None"""
+        if not (isinstance(s, ast.Expr) and isinstance(s.value, ast.Call) and isinstance(s.value.func, ast.Name)):
+            return None
+        c = s.value
+        d = self.done.get(c.func.id)
+        if d is None or not d[1] or not d[1][0].startswith("obj:") or not c.args or c.keywords \
+                or not (isinstance(c.args[0], ast.Name) and c.args[0].id == self.objname):
+            return None
+        if (d[0][4:] if d[0].startswith("exc:") else d[0]) != "none" or len(c.args) != len(d[1]):
+            raise NotImplementedError("call of %s on the object" % c.func.id)
+        spec = [x for x in d[1][0][4:].split(";")[0].split(",") if x]
+        mine = dict(zip(self.attrs, self.attr_specs))
+        args = []
+        for x in spec:
+            a = x.split(":")[0]
+            if mine.get(a) != x:
+                raise NotImplementedError("attribute %s of the callee %s is not an attribute here" % (a, c.func.id))
+            args.append(self.objname + "_" + a)
+        args += [self.e(a) for a in c.args[1:]]
+        return c.func.id, "(%s %s)" % (lean_name(c.func.id), " ".join(args))
+
+    def is_event_stmt(self, s):
+        """shape test only (no translation of the arguments): is `s` an event call / its assignment?"""
+        c = s.value if isinstance(s, (ast.Expr, ast.Assign)) else None
+        if not (isinstance(c, ast.Call) and isinstance(c.func, ast.Attribute) and c.func.attr in EVENT_CALLS):
+            return False
+        if not self.has_events():
+            return False
+        r = c.func.value
+        while isinstance(r, ast.Attribute):
+            r = r.value
+        return isinstance(r, ast.Name) and (r.id == "self" or r.id not in self.lty)
+
+    def event_stmt(self, s):
+        """`X.m(...)` / `v = X.m(...)` for an EVENT_CALLS method -> (event expression, result type, target) or None"""
+        if isinstance(s, ast.Expr):
+            ec = self.event_call(s.value)
+            return None if ec is None else (ec[0], ec[1], None)
+        if isinstance(s, ast.Assign) and len(s.targets) == 1 and isinstance(s.targets[0], ast.Name):
+            ec = self.event_call(s.value)
+            if ec is None:
+                return None
+            if ec[1] is None:
+                raise NotImplementedError("the result of an event call without a declared result type")
+            return ec[0], ec[1], s.targets[0].id
+        return None
 
     def is_emit(self, s):
         """`yield e` / `self.<EFFECT>(...)` as a statement -> the emitted value's AST (tuple for calls) or None"""
@@ -873,14 +1343,34 @@ class Tr(object):
         if isinstance(s.value, ast.Yield):
             if not self.base().startswith("gen:") or s.value.value is None:
                 raise NotImplementedError("yield in a function not declared gen:")
-            return s.value.value
+            v = s.value.value
+            if isinstance(v, ast.Call) and isinstance(v.func, ast.Name) and v.func.id in RECORD_CALLS \
+                    and v.func.id not in self.lty:
+                spec = RECORD_CALLS[v.func.id]
+                if spec and isinstance(spec[0], tuple):
+                    # only the listed positional arguments are kept (the others are opaque objects passed through)
+                    ignored, keep = spec
+                    if any(k.arg not in ignored for k in v.keywords) or max(keep) >= len(v.args):
+                        raise NotImplementedError("record %s" % v.func.id)
+                    return v.args[keep[0]] if len(keep) == 1 else ast.Tuple(elts=[v.args[i] for i in keep], ctx=ast.Load())
+                ignored = spec
+                n = len(self.base()[4:].split(","))
+                if len(v.args) != n or any(k.arg not in ignored for k in v.keywords):
+                    raise NotImplementedError("record %s with %d positional arguments" % (v.func.id, len(v.args)))
+                return ast.Tuple(elts=list(v.args), ctx=ast.Load())
+            return v
         c = s.value
+        if self.is_event_stmt(s):
+            return None                   # recorded as an event of an `ev:` function
         if (isinstance(c, ast.Call) and isinstance(c.func, ast.Attribute) and isinstance(c.func.value, ast.Name)
                 and c.func.value.id == "self" and c.func.attr in EFFECTS):
-            if not self.base().startswith("calls:") or c.keywords or len(c.args) != len(calls_types(self.base())):
-                raise NotImplementedError("effect call %s with %d arguments / keywords in a function declared %s"
-                                          % (c.func.attr, len(c.args), self.ret))
-            return ast.Tuple(elts=list(c.args), ctx=ast.Load())
+            # keyword arguments follow the positional ones, in source order (the declared `calls:` arity fixes the shape)
+            args = list(c.args) + [k.value for k in c.keywords]
+            if not self.base().startswith("calls:") or any(k.arg is None for k in c.keywords) \
+                    or len(args) != len(calls_types(self.base())):
+                raise NotImplementedError("effect call %s with %d arguments in a function declared %s"
+                                          % (c.func.attr, len(args), self.ret))
+            return ast.Tuple(elts=args, ctx=ast.Load())
         return None
 
     def assigned(self, stmts):
@@ -890,6 +1380,8 @@ class Tr(object):
             if nm not in out:
                 out.append(nm)
         for s in stmts:
+            if self.is_event_stmt(s):
+                add("out_")
             if isinstance(s, ast.Assign):
                 for t in s.targets:
                     for nm in self.target_names(t):
@@ -914,6 +1406,8 @@ class Tr(object):
         """names assigned on every path through stmts that reaches their end"""
         out = set()
         for s in stmts:
+            if self.is_event_stmt(s):
+                out.add("out_")
             if isinstance(s, ast.Assign):
                 for t in s.targets:
                     out.update(self.target_names(t))
@@ -934,16 +1428,16 @@ class Tr(object):
         return any(isinstance(n, (ast.Return, ast.Raise, ast.Break, ast.Continue)) for s in stmts for n in ast.walk(s))
 
     def with_state(self, v):
-        """the function's result: the returned value and the final values of the state attributes"""
-        base = self.ret[4:] if self.is_exc() else self.ret
-        if base == "none":
-            if not self.attrs:
-                return "()"
-            return self.attrs_tuple()
-        return v if not self.attrs else "(" + ", ".join([v] + ["self_" + a for a in self.attrs]) + ")"
+        """the function's result: the returned value, the final values of the state attributes and (functions
+        declared `ev:`) the list of events"""
+        base = self.base()
+        comps = ([] if base == "none" else [v]) + [self.objname + "_" + a for a in self.attrs] + (["out_"] if self.has_events() else [])
+        if not comps:
+            return "()"
+        return comps[0] if len(comps) == 1 else "(" + ", ".join(comps) + ")"
 
     def attrs_tuple(self):
-        vs = ["self_" + a for a in self.attrs]
+        vs = [self.objname + "_" + a for a in self.attrs]
         return vs[0] if len(vs) == 1 else "(" + ", ".join(vs) + ")"
 
     def ret_value(self, v):
@@ -952,7 +1446,14 @@ class Tr(object):
             if v is not None:
                 raise NotImplementedError("return with a value in a generator")
             return "(Except.ok out_)" if self.is_exc() else "out_"
-        base = self.ret[4:] if self.is_exc() else self.ret
+        base = self.base()
+        if base.startswith("opt:"):
+            # `return None` / `return e` of a function whose result may be None
+            if v is None or (isinstance(v, ast.Constant) and v.value is None):
+                r = self.with_state("none")
+            else:
+                r = self.with_state("(some %s)" % self.e(v))
+            return "(Except.ok %s)" % r if self.is_exc() else r
         if v is None or (isinstance(v, ast.Constant) and v.value is None):
             if base != "none":
                 raise NotImplementedError("return None in a function declared " + self.ret)
@@ -1058,6 +1559,42 @@ class Tr(object):
                                                        self.exit_with("(Except.error \"AssertionError\")"))
             self.pending = mine
             return self.wrap_pending(pad, text)
+        if (self.local_obj and isinstance(s, ast.Assign) and len(s.targets) == 1 and isinstance(s.targets[0], ast.Name)
+                and s.targets[0].id == self.objname):
+            c = s.value
+            if not (isinstance(c, ast.Call) and isinstance(c.func, ast.Name) and not c.args and not c.keywords
+                    and ((c.func.id == "cls" and self.is_classmethod) or c.func.id in self.classes)):
+                raise NotImplementedError("the local object must be created by `cls()` / `Class()`")
+            # the fresh object is its attribute parameters (the values the constructor leaves)
+            return self.block(rest, ind, tail)
+        pc = self.proc_call(s)
+        if pc is not None:
+            callee, call = pc
+            cattrs = [x.split(":")[0] for x in self.done[callee][1][0][4:].split(";")[0].split(",") if x]
+            t = self.raising(call) if self.done[callee][0].startswith("exc:") else None
+            src = t if t is not None else call
+            text = ""
+            for i, a in enumerate(cattrs):
+                nm = self.objname + "_" + a
+                text += "%slet %s : %s := %s\n" % (pad, nm, self.lty[nm], proj(src, i, len(cattrs)))
+            return self.seq(pad, text, rest, ind, tail)
+        if isinstance(s, ast.Return) and self.local_obj and isinstance(s.value, ast.Name) and s.value.id == self.objname:
+            s = ast.Return(value=None)           # `return <the object>`: its attributes are the result
+        ev = self.event_stmt(s)
+        if ev is not None:
+            expr, result, target = ev
+            if self.loops and target is not None:
+                raise NotImplementedError("the result of an event call used inside a loop")
+            text = "%slet out_ : List PyEvent := out_ ++ [%s]\n" % (pad, expr)
+            if target is not None:
+                # what the environment answers is an input of the generated definition
+                name = ident(target) + "_in"
+                if name in [o[0] for o in self.oracles]:
+                    raise NotImplementedError("two event calls assigned to " + target)
+                self.oracles.append((name, BASE_TY[result]))
+                text += "%slet %s : %s := %s\n" % (pad, ident(target), BASE_TY[result], name)
+                self.lty[ident(target)] = BASE_TY[result]
+            return self.seq(pad, text, rest, ind, tail)
         em = self.is_emit(s)
         if em is not None:
             v = self.e(em)
@@ -1067,6 +1604,13 @@ class Tr(object):
             if not self.loops:
                 raise NotImplementedError("break / continue outside a loop")
             return pad + self.loops[-1].tuple("true" if isinstance(s, ast.Break) else "false")
+        if isinstance(s, ast.Return) and self.base().startswith("calls:") and s.value is not None:
+            # `return self.<EFFECT>(...)` / `return self.<EFFECT>(...).attr`: the call is recorded; what the machine
+            # answers (and hence the returned value) is not part of a `calls:` result
+            c = s.value.value if isinstance(s.value, ast.Attribute) else s.value
+            if self.is_emit(ast.Expr(value=c)) is None:
+                raise NotImplementedError("return with a value in a function declared calls:")
+            return self.block([ast.Expr(value=c), ast.Return(value=None)] + rest, ind, tail)
         if isinstance(s, ast.Return):
             if tail is not None and not self.loops:
                 raise NotImplementedError("return in this position")
@@ -1076,6 +1620,43 @@ class Tr(object):
             if tail is not None and not self.loops:
                 raise NotImplementedError("raise in this position")
             return pad + self.exit_with(self.raise_value(s))
+        if isinstance(s, ast.Assign) and len(s.targets) == 1 and isinstance(s.value, ast.Call) \
+                and self.struct_call(s.value) is not None and self.struct_call(s.value)[0] != "pack":
+            # `a, b = struct.unpack_from(...)`: the values are the elements of the unpacked list (its length is that
+            # of the format, `pyStructUnpack*_length`; the defaults of `getD` are never used)
+            tmp, n_vals = self.struct_expr(s.value)
+            t = s.targets[0]
+            names = self.target_names(t)
+            if not isinstance(t, ast.Tuple) or len(names) != n_vals:
+                raise NotImplementedError("unpacking %d struct values into %d targets" % (n_vals, len(names)))
+            text = ""
+            for i, nm in enumerate(names):
+                if nm == "_":
+                    continue
+                ty = self.lty.get(nm, "Int")
+                if ty == "Option Int":
+                    text += "%slet %s : Option Int := some (%s.getD %d 0)\n" % (pad, nm, tmp, i)
+                elif ty == "Int":
+                    text += "%slet %s : Int := (%s.getD %d 0)\n" % (pad, nm, tmp, i)
+                    self.lty[nm] = "Int"
+                else:
+                    raise NotImplementedError("struct value assigned to %s : %s" % (nm, ty))
+            return self.seq(pad, text, rest, ind, tail)
+        if isinstance(s, ast.Assign) and len(s.targets) == 1 and isinstance(s.targets[0], ast.Name) \
+                and s.targets[0].id in self.optslices:
+            v = s.value
+            nm = ident(s.targets[0].id)
+            if isinstance(v, ast.Constant) and v.value is None:
+                val = "none"
+            elif (isinstance(v, ast.Call) and isinstance(v.func, ast.Name) and v.func.id == "slice" and len(v.args) == 2
+                  and not v.keywords and "slice" not in self.lty):
+                val = "(some (%s, %s))" % (self.e(v.args[0]), self.e(v.args[1]))
+            else:
+                raise NotImplementedError("value assigned to the optional slice " + nm)
+            self.narrow.pop(ast.dump(ast.Name(id=s.targets[0].id, ctx=ast.Load())), None)   # no longer known
+            self.lty[nm] = "Option (Int × Int)"
+            text = "%slet %s : Option (Int × Int) := %s\n" % (pad, nm, val)
+            return self.seq(pad, text, rest, ind, tail)
         if isinstance(s, ast.Assign) and len(s.targets) == 1:
             t = s.targets[0]
             names = self.target_names(t)
@@ -1087,8 +1668,10 @@ class Tr(object):
                 self.bind(names, [vty])
             else:
                 cs = components(vty)
-                if len(cs) != len(names) or any(c != "Int" for c in cs):
+                if len(cs) != len(names) or (not isinstance(s.value, ast.Tuple) and any(c != "Int" for c in cs)):
                     raise NotImplementedError("unpacking %s into %d names" % (vty, len(names)))
+                if isinstance(s.value, ast.Tuple):
+                    cs = [self.tyof(x) for x in s.value.elts]
                 self.bind(names, cs)
             text = "%slet %s%s := %s\n" % (pad, pat, ty, val)
             return self.seq(pad, text, rest, ind, tail)
@@ -1099,9 +1682,10 @@ class Tr(object):
             tgt = ast.Attribute(value=s.target.value, attr=s.target.attr, ctx=ast.Load()) \
                 if isinstance(s.target, ast.Attribute) else ast.Name(id=s.target.id, ctx=ast.Load())
             v = ast.BinOp(left=tgt, op=s.op, right=s.value)
+            vty = self.tyof(v)
             val = self.e(v)
-            self.bind(names)
-            text = "%slet %s : Int := %s\n" % (pad, names[0], val)
+            self.bind(names, [vty])
+            text = "%slet %s : %s := %s\n" % (pad, names[0], vty, val)
             return self.seq(pad, text, rest, ind, tail)
         if isinstance(s, ast.If):
             return self.if_stmt(s, rest, ind, tail)
@@ -1111,7 +1695,44 @@ class Tr(object):
             return self.while_stmt(s, rest, ind, tail)
         raise NotImplementedError(ast.dump(s)[:120])
 
+    def static_test(self, n):
+        """a condition decided by the DECLARED types alone: `isinstance(x, str)` / `isinstance(x, Iterable)` is False
+        for an int-typed parameter `x`; and / or / not of such -> True / False / None (not static)"""
+        if (isinstance(n, ast.Call) and isinstance(n.func, ast.Name) and n.func.id == "isinstance" and len(n.args) == 2
+                and isinstance(n.args[0], ast.Name) and self.types.get(n.args[0].id) == "int"
+                and n.args[0].id not in self.assigned_anywhere_py
+                and isinstance(n.args[1], ast.Name) and n.args[1].id in ("str", "Iterable", "bytes", "list", "tuple")):
+            return False
+        if isinstance(n, ast.UnaryOp) and isinstance(n.op, ast.Not):
+            v = self.static_test(n.operand)
+            return None if v is None else not v
+        if isinstance(n, ast.BoolOp):
+            vs = [self.static_test(v) for v in n.values]
+            if isinstance(n.op, ast.And) and vs[0] is False:
+                return False                     # later operands are not evaluated
+            if isinstance(n.op, ast.Or) and vs[0] is True:
+                return True
+            if all(v is not None for v in vs):
+                return all(vs) if isinstance(n.op, ast.And) else any(vs)
+        return None
+
     def if_stmt(self, s, rest, ind, tail):
+        try:
+            saved = (dict(self.lty), dict(self.narrow), list(self.pending), len(self.aux), self.ntmp, list(self.oracles))
+            return self.if_stmt_(s, rest, ind, tail, False)
+        except NotImplementedError as e:
+            if "different types in the branches" not in str(e) or rest or tail is not None or self.loops:
+                raise
+            self.lty, self.narrow, self.pending = saved[0], saved[1], saved[2]
+            del self.aux[saved[3]:]
+            self.ntmp, self.oracles = saved[4], saved[5]
+            return self.if_stmt_(s, rest, ind, tail, True)
+
+    def if_stmt_(self, s, rest, ind, tail, force_dup):
+        st = self.static_test(s.test)
+        if st is not None:
+            # decided by the declared parameter types: only the live branch exists
+            return self.block((s.body if st else s.orelse) + rest, ind, tail)
         pad = "  " * ind
         nt = self.none_test(s.test)
         saved_l, saved_n = dict(self.lty), dict(self.narrow)
@@ -1135,7 +1756,31 @@ class Tr(object):
         my_pending, self.pending = self.pending, []
         then_narrow = nt is not None and not nt[2]
         else_narrow = nt is not None and nt[2]
-        if self.has_exit([s]):
+        if not force_dup and not self.has_exit([s]) and self.has_raising(s.body + s.orelse) and not self.loops:
+            # no return / raise statement, but a raising EXPRESSION inside a branch: the branches compute
+            # `Except String <tuple of the variables they assign>`, an error leaves the function
+            da = self.definitely_assigned(s.body) & self.definitely_assigned(s.orelse)
+            vs = [v for v in self.assigned([s]) if v in saved_l or v in da]
+            if not vs:
+                raise NotImplementedError("`if` without effect")
+            tup = vs[0] if len(vs) == 1 else "(" + ", ".join(vs) + ")"
+            a = branch(s.body, then_narrow, ind + 2, "(Except.ok %s)" % tup)
+            tys_a = dict(self.lty)
+            b = branch(s.orelse, else_narrow, ind + 2, "(Except.ok %s)" % tup)
+            tys_b = dict(self.lty)
+            self.lty, self.narrow = dict(saved_l), dict(saved_n)
+            for v in vs:
+                ta, tb = tys_a.get(v, saved_l.get(v)), tys_b.get(v, saved_l.get(v))
+                if ta != tb:
+                    raise NotImplementedError("variable %s has different types in the branches of an if" % v)
+                self.lty[v] = ta
+            ety = prod([self.lty[v] for v in vs])
+            text = "%smatch ((%s) : Except String (%s)) with\n%s| Except.error e_ => %s\n%s| Except.ok %s =>\n" % (
+                pad, head(a, b, pad + "  "), ety, pad, self.exit_with("(Except.error e_)"), pad, tup)
+            text += self.block(rest, ind, tail)
+            self.pending = my_pending
+            return self.wrap_pending(pad, text)
+        if force_dup or self.has_exit([s]) or self.has_raising(s.body + s.orelse):
             if tail is None and not self.loops and self.returns(s.body) and (self.returns(s.orelse) or not s.orelse):
                 a = branch(s.body, then_narrow, ind + 1, None)
                 b = branch(s.orelse if s.orelse else rest, else_narrow, ind + 1, None)
@@ -1413,17 +2058,70 @@ def visible_enums(repo, rel, tree):
     return out
 
 
+def module_enums(repo, rel, tree):
+    """modules of the repo imported as a name (`from . import consts`, `from rig.machine_control import consts`):
+    name -> {Enum: {member: value}}"""
+    out = {}
+    pkg = os.path.dirname(rel).split("/")
+    for n in tree.body:
+        if not isinstance(n, ast.ImportFrom):
+            continue
+        base = (pkg[:len(pkg) - (n.level - 1)] if n.level else []) + (n.module.split(".") if n.module else [])
+        for a in n.names:
+            path = os.path.join(repo, *(base + [a.name])) + ".py"
+            init = os.path.join(repo, *(base + [a.name, "__init__.py"]))
+            if a.asname is None and os.path.exists(path):
+                out[a.name] = int_enums(ast.parse(open(path).read()), values_only=False)
+            elif a.asname is None and os.path.exists(init):
+                # a package: the IntEnum classes its __init__ re-exports by `from <module of the repo> import Name`
+                out[a.name] = visible_enums(repo, os.path.join(*(base + [a.name, "__init__.py"])),
+                                            ast.parse(open(init).read()))
+    return out
+
+
+def module_str_consts(repo, rel, tree):
+    """`module.NAME` string constants of modules imported as a name: module -> {NAME: str}"""
+    out = {}
+    pkg = os.path.dirname(rel).split("/")
+    for n in tree.body:
+        if not isinstance(n, ast.ImportFrom):
+            continue
+        base = (pkg[:len(pkg) - (n.level - 1)] if n.level else []) + (n.module.split(".") if n.module else [])
+        for a in n.names:
+            path = os.path.join(repo, *(base + [a.name])) + ".py"
+            if a.asname is None and os.path.exists(path):
+                t = ast.parse(open(path).read())
+                names = [x.id for m in ast.walk(t) if isinstance(m, ast.Assign) for x in m.targets if isinstance(x, ast.Name)]
+                out[a.name] = dict((m.targets[0].id, m.value.value) for m in t.body if isinstance(m, ast.Assign)
+                                   and len(m.targets) == 1 and isinstance(m.targets[0], ast.Name)
+                                   and isinstance(m.value, ast.Constant) and isinstance(m.value.value, str)
+                                   and names.count(m.targets[0].id) == 1)
+    return out
+
+
 def find_def(tree, rel, qual):
     scope, cls = tree, None
     parts = qual.split(".")
-    if len(parts) > 2:
+    if len(parts) > 3:
         raise NotImplementedError("nested name " + qual)
+    if len(parts) == 3:
+        # Class.method.nested: a function defined inside a method
+        outer, _ = find_def(tree, rel, ".".join(parts[:2]))
+        fn = [n for n in ast.walk(outer) if isinstance(n, ast.FunctionDef) and n.name == parts[2] and n is not outer]
+        if len(fn) != 1:
+            raise NotImplementedError("%s: %d definitions of %s" % (rel, len(fn), qual))
+        return fn[0], parts[0]
     if len(parts) == 2:
         cs = [n for n in tree.body if isinstance(n, ast.ClassDef) and n.name == parts[0]]
         if len(cs) != 1:
             raise NotImplementedError("%s: %d definitions of class %s" % (rel, len(cs), parts[0]))
         scope, cls = cs[0], parts[0]
-        fn = [n for n in scope.body if isinstance(n, ast.FunctionDef) and n.name == parts[1]]
+        fn = []
+        for cname in class_mro(tree, parts[0]):        # the method may be inherited (single inheritance, same file)
+            c = [n for n in tree.body if isinstance(n, ast.ClassDef) and n.name == cname]
+            fn = [n for n in c[0].body if isinstance(n, ast.FunctionDef) and n.name == parts[1]] if c else []
+            if fn:
+                break
     else:
         fn = [n for n in ast.walk(tree) if isinstance(n, ast.FunctionDef) and n.name == qual]
     if len(fn) != 1:
@@ -1436,6 +2134,12 @@ def translate(repo, rel, fname, ptypes, ret, done=None):
         ret = "exc:int"
     tree = ast.parse(open(os.path.join(repo, rel)).read())
     fn, cls = find_def(tree, rel, fname)
+    nested_def = fname.count(".") == 2
+    if nested_def:
+        cls = None
+    fn.decorator_list = [d for d in fn.decorator_list if not (
+        isinstance(d, ast.Call) and not d.args and not d.keywords and isinstance(d.func, ast.Attribute)
+        and d.func.attr in TRANSPARENT_DECORATORS)]
     decos = [d.id for d in fn.decorator_list if isinstance(d, ast.Name)]
     if len(decos) != len(fn.decorator_list) or any(
             d not in ("property", "classmethod", "staticmethod") + GUARDS for d in decos):
@@ -1444,6 +2148,28 @@ def translate(repo, rel, fname, ptypes, ret, done=None):
     if a.vararg or a.kwarg or a.kwonlyargs or getattr(a, "posonlyargs", []):
         raise NotImplementedError("%s: parameter kinds" % fname)
     params = [x.arg for x in a.args]
+    # declared local variables (`var:<name>=optslice`: None or slice(a, b) of ints)
+    var_types = dict(t[4:].split("=", 1) for t in ptypes if t.startswith("var:"))
+    ptypes = [t for t in ptypes if not t.startswith("var:")]
+    if any(v != "optslice" for v in var_types.values()):
+        raise NotImplementedError("%s: variable types %r" % (fname, var_types))
+    # a local object (`local:<name>=obj:...`): its attributes - as the constructor leaves them - are parameters
+    local_obj = [t[6:].split("=", 1) for t in ptypes if t.startswith("local:")]
+    ptypes = [t for t in ptypes if not t.startswith("local:")]
+    if len(local_obj) > 1:
+        raise NotImplementedError("%s: more than one local object" % fname)
+    # closure variables of a nested function (`name=type` entries after the parameters): extra parameters
+    closure = [t.split("=", 1) for t in ptypes if "=" in t]
+    ptypes = [t for t in ptypes if "=" not in t]
+    if closure and fname.count(".") < 2 and not nested_def:
+        raise NotImplementedError("%s: closure variables of a function that is not nested" % fname)
+    params = params + [c[0] for c in closure]
+    ptypes = ptypes + [c[1] for c in closure]
+    if local_obj:
+        if any(p_ == local_obj[0][0] for p_ in params):
+            raise NotImplementedError("%s: local object named like a parameter" % fname)
+        params = [params[0]] * (params[:1] == ["cls"]) + [local_obj[0][0]] + params[(params[:1] == ["cls"]):]
+        ptypes = [local_obj[0][1]] + ptypes
     is_classmethod = "classmethod" in decos
     if is_classmethod:
         if params[:1] != ["cls"]:
@@ -1452,20 +2178,24 @@ def translate(repo, rel, fname, ptypes, ret, done=None):
     if len(params) != len(ptypes):
         raise NotImplementedError("%s: parameters %r" % (fname, params))
     local_enums = int_enums(tree)
-    attrs, aty, types, sig, recs, lty, skipped = [], [], {}, [], {}, {}, []
+    attrs, aty, types, sig, recs, lty, skipped, objname = [], [], {}, [], {}, {}, [], "self"
     for p, t in zip(params, ptypes):
         if t.startswith("obj:"):
-            if p != "self" or attrs:
+            if attrs or (p != "self" and cls is not None and not nested_def and not local_obj):
                 raise NotImplementedError("%s: obj parameter %s" % (fname, p))
+            objname = p
             main, _, skip = t[4:].partition(";skip:")
             skipped = [x for x in skip.split(",") if x]
             spec = [x for x in main.split(",") if x]
             attrs = [x.split(":")[0] for x in spec]
-            aty = ["Bool" if x.endswith(":b") else "Int" for x in spec]
+            aty = [{"b": "Bool", "y": "List Int", "o": "Option Int"}.get(x.split(":")[1], None) if ":" in x else "Int"
+                   for x in spec]
+            if None in aty:
+                raise NotImplementedError("%s: attribute type in %s" % (fname, t))
             types[p] = "obj"
-            sig += ["(self_%s : %s)" % (x, ty_) for x, ty_ in zip(attrs, aty)]
+            sig += ["(%s_%s : %s)" % (p, x, ty_) for x, ty_ in zip(attrs, aty)]
             for x, ty_ in zip(attrs, aty):
-                lty["self_" + x] = ty_
+                lty[p + "_" + x] = ty_
         elif t == "ignored":
             types[p] = "ignored"       # a parameter the body must not read (e.g. a parent object that is only stored)
         else:
@@ -1478,7 +2208,15 @@ def translate(repo, rel, fname, ptypes, ret, done=None):
                 types[p] = "list"
     tr = Tr(types, cls=cls, enums=visible_enums(repo, rel, tree), done=done, attrs=attrs, recs=recs)
     tr.local_enums = local_enums
+    tr.module_enums = module_enums(repo, rel, tree)
+    tr.module_strs = module_str_consts(repo, rel, tree)
     tr.obj_spec = next((t for t in ptypes if t.startswith("obj:")), None)
+    tr.attr_specs = [x for x in (tr.obj_spec or "obj:")[4:].split(";")[0].split(",") if x]
+    tr.objname = objname
+    tr.local_obj = bool(local_obj)
+    tr.optslices = set(var_types)
+    tr.mro = class_mro(tree, cls) if cls else [None]
+    tr.consts = dict((k, v) for k, v in module_int_consts(tree).items())
     tr.lty = lty
     tr.ret = ret
     tr.fn = fn
@@ -1490,6 +2228,7 @@ def translate(repo, rel, fname, ptypes, ret, done=None):
     tr.imports_sqrt = any(isinstance(n, ast.ImportFrom) and n.module == "math" and any(
         al.name == "sqrt" and al.asname is None for al in n.names) for n in tree.body)
     tr.rec_elems = dict((ident(p), t[9:].split(",")) for p, t in zip(params, ptypes) if t.startswith("list:rec:"))
+    tr.assigned_anywhere_py = set()
     tr.assigned_anywhere = set()
     for n in ast.walk(fn):
         if isinstance(n, (ast.Assign, ast.AugAssign, ast.For)):
@@ -1497,8 +2236,37 @@ def translate(repo, rel, fname, ptypes, ret, done=None):
                 for x in ast.walk(t):
                     if isinstance(x, ast.Name):
                         tr.assigned_anywhere.add(ident(x.id))
+    def live_assigned(stmts):
+        for st_ in stmts:
+            if isinstance(st_, ast.If):
+                v = tr.static_test(st_.test)
+                for x in live_assigned((st_.body if v is not False else []) + (st_.orelse if v is not True else [])):
+                    yield x
+            elif isinstance(st_, (ast.For, ast.While)):
+                for x in live_assigned(st_.body + st_.orelse):
+                    yield x
+                if isinstance(st_, ast.For):
+                    for x in ast.walk(st_.target):
+                        if isinstance(x, ast.Name):
+                            yield x.id
+            elif isinstance(st_, (ast.Assign, ast.AugAssign)):
+                for t in (st_.targets if isinstance(st_, ast.Assign) else [st_.target]):
+                    for x in ast.walk(t):
+                        if isinstance(x, ast.Name):
+                            yield x.id
+            elif isinstance(st_, ast.Try):
+                for x in live_assigned(st_.body + st_.orelse + st_.finalbody + [h for hh in st_.handlers for h in hh.body]):
+                    yield x
+    # two passes: a parameter assigned only in code that is dead by its declared type keeps that type
+    tr.assigned_anywhere_py = set()
+    tr.assigned_anywhere_py = set(live_assigned(fn.body))
     base = ret[4:] if ret.startswith("exc:") else ret
+    events = base.startswith("ev:")
+    if events:
+        base = base[3:]
     stream = base.startswith(("gen:", "calls:"))
+    if events and stream:
+        raise NotImplementedError("ev: together with gen: / calls:")
     if stream:
         rty = lean_ty(base)
         if any(tr_assigns_attr(n) for n in ast.walk(fn)):
@@ -1507,6 +2275,9 @@ def translate(repo, rel, fname, ptypes, ret, done=None):
         rty = prod(aty) if attrs else "Unit"
     else:
         rty = lean_ty(base) if not attrs else prod([lean_ty(base)] + aty)
+    if events:
+        rty = "List PyEvent" if rty == "Unit" else prod([rty, "List PyEvent"]) if " × " not in rty else rty + " × List PyEvent"
+        tr.lty["out_"] = "List PyEvent"
     if ret.startswith("exc:"):
         rty = "Except String " + paren(rty)
     tr.full_ret_ty = rty
@@ -1531,6 +2302,9 @@ def translate(repo, rel, fname, ptypes, ret, done=None):
     body = tr.block(body_stmts, 1)
     if stream:
         body = "  let out_ : %s := []\n" % lean_ty(base) + body
+    if events:
+        body = "  let out_ : List PyEvent := []\n" + body
+    sig += ["(%s : %s)" % o for o in tr.oracles]
     if tr.uses_fuel:
         sig.append("(fuel : Nat)")
     assigns_state = any(tr_assigns_attr(n) for n in ast.walk(fn))
@@ -1541,8 +2315,32 @@ def translate(repo, rel, fname, ptypes, ret, done=None):
 def tr_assigns_attr(n):
     if isinstance(n, (ast.Assign, ast.AugAssign)):
         ts = n.targets if isinstance(n, ast.Assign) else [n.target]
-        return any(isinstance(t, ast.Attribute) and isinstance(t.value, ast.Name) and t.value.id == "self" for t in ts)
+        ts = [x for t in ts for x in (t.elts if isinstance(t, ast.Tuple) else [t])]
+        return any(isinstance(t, ast.Attribute) and isinstance(t.value, ast.Name) for t in ts)
     return False
+
+
+def class_mro(tree, cls):
+    """the class and its (single-inheritance, same file) base classes"""
+    out = [cls]
+    by = dict((c.name, c) for c in tree.body if isinstance(c, ast.ClassDef))
+    while out[-1] in by and len(by[out[-1]].bases) == 1 and isinstance(by[out[-1]].bases[0], ast.Name) \
+            and by[out[-1]].bases[0].id in by:
+        out.append(by[out[-1]].bases[0].id)
+    return out
+
+
+def module_int_consts(tree):
+    out = {}
+    for n in tree.body:
+        if (isinstance(n, ast.Assign) and len(n.targets) == 1 and isinstance(n.targets[0], ast.Name)
+                and isinstance(n.value, ast.Constant) and isinstance(n.value.value, int)
+                and not isinstance(n.value.value, bool)):
+            out[n.targets[0].id] = n.value.value
+    # a name assigned twice is not a constant
+    names = [t.id for n in ast.walk(tree) if isinstance(n, (ast.Assign, ast.AugAssign))
+             for t in (n.targets if isinstance(n, ast.Assign) else [n.target]) if isinstance(t, ast.Name)]
+    return dict((k, v) for k, v in out.items() if names.count(k) == 1)
 
 
 def drop_skipped(stmts, skipped):
@@ -1573,7 +2371,7 @@ def is_ignored_store(s, types):
 
 
 def gen_pyfun(repo):
-    s = HEADER + "import Mathlib.Data.Int.Bitwise\nimport RigModel.Gen.Spinn5\nimport RigModel.Gen.Links\nset_option linter.unusedVariables false\nnamespace Rig.Gen.PyFun\n\n"
+    s = HEADER + "import Mathlib.Data.Int.Bitwise\nimport RigModel.Gen.Spinn5\nimport RigModel.Gen.Links\nimport RigModel.Gen.Scp\nimport RigModel.Gen.LoadSig\nset_option linter.unusedVariables false\nnamespace Rig.Gen.PyFun\n\n"
     s += PRELUDE
     done = {}
     for rel, fname, ptypes, ret in FUNCS:
